@@ -8,13 +8,17 @@ package main
 //   (F) concurrent delivery of one valid block by two goroutines (isIgnorableBlock runs outside chainLock).
 
 import (
+	"crypto/ecdsa"
 	"fmt"
+	"math/big"
 	"os"
 	"path/filepath"
 	"sort"
 	"strings"
 	"sync"
+	"time"
 
+	"github.com/LemoFoundationLtd/lemochain-core/chain/account"
 	"github.com/LemoFoundationLtd/lemochain-core/chain/consensus"
 	"github.com/LemoFoundationLtd/lemochain-core/chain/deputynode"
 	"github.com/LemoFoundationLtd/lemochain-core/chain/params"
@@ -94,10 +98,15 @@ func c02SaveFaultProbe(c *Ctx) {
 		c.Count("save-fault:cannot-inject")
 		return
 	}
+	// op line for the model: same facts as any other case + `sv=fail` (the save returns an error)
+	c.Op(fmt.Sprintf("params %d %d %d", params.TermDuration, params.InterimDuration, w.Timeout), "ok")
+	ex := s.reexec(CloneBlock(blk))
+	facts := s.facts(CloneBlock(blk), time.Now().Unix(), ex)
 	before := s.fingerprint(blk.Hash(), blk.Txs)
 	v, msg := c02InsertVerdict(n, blk)
 	after := s.fingerprint(blk.Hash(), blk.Txs)
 	os.RemoveAll(tmp)
+	c.Op("ins "+facts+" sv=fail", strings.SplitN(v, ":", 2)[0]+" pre=ok")
 	moved := c02FpDiff(before, after)
 	c.Count("save-fault:verdict:" + v)
 	for _, k := range moved {
@@ -199,4 +208,308 @@ func c02ConcurrentProbe(c *Ctx) {
 		parent = blk
 		t += 10
 	}
+}
+
+// ---------------------------------------------------------------------------------------------
+// independent well-formedness (review M4): the harness' OWN reading of the non-expiry rules of the property
+// ("every transaction is well-formed"), never calling VerifyTxBody. Returns "" or the broken rule.
+// ---------------------------------------------------------------------------------------------
+
+func c02TxWellFormed(tx *types.Transaction) string {
+	if tx.ChainID() != nodeChainID {
+		return "chain-id"
+	}
+	if tx.Amount() != nil && tx.Amount().Sign() < 0 {
+		return "negative-amount"
+	}
+	if name := tx.ToName(); len(name) > 0 {
+		if len(name) > 100 {
+			return "to-name-length"
+		}
+		for _, r := range name {
+			if !(r >= 'a' && r <= 'z' || r >= 'A' && r <= 'Z' || r >= '0' && r <= '9' || r == '_' || r == '-' || r == '.') {
+				return "to-name-character"
+			}
+		}
+	}
+	if len(tx.Message()) > 1024 {
+		return "message-length"
+	}
+	needData, needTo, known := false, false, true
+	switch tx.Type() {
+	case params.OrdinaryTx, params.VoteTx:
+		needTo = true
+	case params.IssueAssetTx, params.ReplenishAssetTx, params.TransferAssetTx, params.ModifySignersTx:
+		needData, needTo = true, true
+	case params.CreateContractTx, params.RegisterTx, params.CreateAssetTx, params.ModifyAssetTx, params.BoxTx:
+		needData = true
+	default:
+		known = false
+	}
+	if !known {
+		return "tx-type"
+	}
+	if needData && len(tx.Data()) == 0 {
+		return "data-missing"
+	}
+	if needTo != (tx.To() != nil) {
+		return "to-presence"
+	}
+	if tx.Type() == params.BoxTx {
+		box, err := types.GetBox(tx.Data())
+		if err != nil {
+			return "box-data"
+		}
+		for _, sub := range box.SubTxList {
+			if sub == nil {
+				return "box-nil-sub"
+			}
+			if sub.Type() == params.BoxTx {
+				return "box-in-box"
+			}
+			if sub.Expiration() < tx.Expiration() {
+				return "box-sub-expires-before-box"
+			}
+			if why := c02TxWellFormed(sub); why != "" {
+				return "box-sub:" + why
+			}
+		}
+	}
+	if tx.Type() == params.CreateAssetTx {
+		// the asset rules (category / divisible / replenishable) are not re-implemented: no such tx in this campaign
+		if asset, err := types.GetAsset(tx.Data()); err != nil || asset.VerifyAsset() != nil {
+			return "asset"
+		}
+	}
+	return ""
+}
+
+// malformedFamily: blocks assembled by the MINER path (which does not call VerifyTxBody) around one tx that
+// breaks exactly one well-formedness rule: fully consistent roots, signed in turn, so only verifyTxs can reject them.
+func (s *c02State) malformedFamily(parent *types.Block, t uint32, txs types.Transactions, probe types.Transactions) int {
+	c, n, w := s.c, s.n, s.w
+	s.txSeq++
+	exp := uint64(t) + 60
+	to := keyAddr(s.users[1])
+	mk := func(name string) *types.Transaction {
+		msg := fmt.Sprintf("mf-%d", s.txSeq)
+		switch name {
+		case "chain-id":
+			return signTx(types.NewTransaction(keyAddr(w.FounderKey), to, lemo(3), 2000000, oneGwei, nil, params.OrdinaryTx, nodeChainID+1, exp, "", msg), w.FounderKey)
+		case "message-length":
+			return signTx(types.NewTransaction(keyAddr(w.FounderKey), to, lemo(3), 3000000, oneGwei, nil, params.OrdinaryTx, nodeChainID, exp, "", strings.Repeat("m", 1025)), w.FounderKey)
+		case "message-length-ok":
+			return signTx(types.NewTransaction(keyAddr(w.FounderKey), to, lemo(3), 3000000, oneGwei, nil, params.OrdinaryTx, nodeChainID, exp, "", strings.Repeat("m", 1000)+msg), w.FounderKey)
+		case "to-name-character":
+			return signTx(types.NewTransaction(keyAddr(w.FounderKey), to, lemo(3), 2000000, oneGwei, nil, params.OrdinaryTx, nodeChainID, exp, "bad name!", msg), w.FounderKey)
+		case "to-name-length":
+			return signTx(types.NewTransaction(keyAddr(w.FounderKey), to, lemo(3), 2000000, oneGwei, nil, params.OrdinaryTx, nodeChainID, exp, strings.Repeat("n", 101), msg), w.FounderKey)
+		case "to-name-ok":
+			return signTx(types.NewTransaction(keyAddr(w.FounderKey), to, lemo(3), 2000000, oneGwei, nil, params.OrdinaryTx, nodeChainID, exp, "good.name-1_"+fmt.Sprint(s.txSeq), msg), w.FounderKey)
+		case "to-presence":
+			return signTx(types.NoReceiverTransaction(keyAddr(w.FounderKey), big.NewInt(0), 2000000, oneGwei, nil, params.OrdinaryTx, nodeChainID, exp, "", msg), w.FounderKey)
+		case "vote-without-to":
+			return signTx(types.NoReceiverTransaction(keyAddr(w.FounderKey), big.NewInt(0), 2000000, oneGwei, nil, params.VoteTx, nodeChainID, exp, "", msg), w.FounderKey)
+		case "data-missing":
+			return signTx(types.NewTransaction(keyAddr(w.FounderKey), to, big.NewInt(0), 2000000, oneGwei, nil, params.ModifySignersTx, nodeChainID, exp, "", msg), w.FounderKey)
+		case "box-sub-chain-id":
+			sub := signTx(types.NewTransaction(keyAddr(w.FounderKey), to, lemo(1), 2000000, oneGwei, nil, params.OrdinaryTx, nodeChainID+1, exp, "", msg), w.FounderKey)
+			return txBox(w.FounderKey, types.Transactions{sub}, TxOpt{Exp: exp, Msg: msg + "-box"})
+		}
+		return nil
+	}
+	names := []string{"chain-id", "message-length", "message-length-ok", "to-name-character", "to-name-length", "to-name-ok", "to-presence", "vote-without-to", "data-missing", "box-sub-chain-id"}
+	name := names[c.Rnd.Intn(len(names))]
+	tx := Safe2(func() *types.Transaction { return mk(name) })
+	if tx == nil {
+		c.Count("miner-built-malformed:cannot-build:" + name)
+		return 0
+	}
+	list := append(append(types.Transactions{}, txs...), tx)
+	db, _, err := n.Build(parent, t, list, nil)
+	if err != nil {
+		return 0
+	}
+	has := false
+	for _, x := range db.Txs {
+		if x.Hash() == tx.Hash() {
+			has = true
+		}
+	}
+	if !has {
+		c.Count("miner-dropped-malformed:" + name)
+		return 0
+	}
+	c.Count("miner-built-malformed:" + name)
+	deputynode.SetSelfNodeKey(detKey("c02-observer"))
+	s.runCase(db, "miner-built-malformed:"+name, false, probe)
+	return 1
+}
+
+// Safe2 runs f and returns nil when it panics.
+func Safe2(f func() *types.Transaction) (tx *types.Transaction) {
+	defer func() {
+		if r := recover(); r != nil {
+			tx = nil
+		}
+	}()
+	return f()
+}
+
+// candidateStep returns the next transaction of the candidates' life cycle, read from the account state at
+// `parent`: fund -> register (deposit 5,000,000 LEMO => top of the ranking) during term 0; candidate 0 resigns
+// during term 1. At most one step per block.
+func (s *c02State) candidateStep(parent *types.Block, cands []*ecdsa.PrivateKey, t uint32) *types.Transaction {
+	h := parent.Height() + 1
+	if h < 2 {
+		return nil
+	}
+	am := account.NewManager(parent.Hash(), s.n.DB)
+	opt := func(m string) TxOpt {
+		s.txSeq++
+		return TxOpt{Exp: uint64(t) + 600, Msg: fmt.Sprintf("cand-%s-%d", m, s.txSeq)}
+	}
+	for i, k := range cands {
+		acc := am.GetAccount(keyAddr(k))
+		isCand := acc.GetCandidateState(types.CandidateKeyIsCandidate)
+		switch {
+		case acc.GetBalance().Sign() == 0 && isCand == "" && h < params.TermDuration-2:
+			s.c.Count("cand:fund")
+			return txTransfer(s.w.FounderKey, keyAddr(k), lemo(int64(6000000+1000000*int64(i))), opt("fund"))
+		case acc.GetBalance().Cmp(lemo(5000000)) > 0 && isCand == "" && h < params.TermDuration-1:
+			s.c.Count("cand:register")
+			return txRegister(k, lemo(int64(5000000+500000*int64(i))), k, false, nil, opt("reg"))
+		case i == 0 && isCand == types.IsCandidateNode && h > params.TermDuration+params.InterimDuration+2 && h < 2*params.TermDuration-1:
+			s.c.Count("cand:resign")
+			return txRegister(k, big.NewInt(0), k, true, nil, opt("unreg"))
+		}
+	}
+	return nil
+}
+
+// c02SubsNearBox: the fed flag is VerifyTxBody(chainID, timestamp := tx.Expiration()), so for a box it also
+// contains "every sub-tx expires at most 1800 s after the BOX" (an artefact of the feeding trick; the window
+// against the block time is modelled separately through Tx.subExps).
+func c02SubsNearBox(tx *types.Transaction) bool {
+	if tx.Type() != params.BoxTx {
+		return true
+	}
+	box, err := types.GetBox(tx.Data())
+	if err != nil {
+		return true
+	}
+	for _, sub := range box.SubTxList {
+		if sub != nil && sub.Expiration() > tx.Expiration()+1800 {
+			return false
+		}
+	}
+	return true
+}
+
+// ---------------------------------------------------------------------------------------------
+// (G) deputy identity (review M2): nothing checks that the node ids (or miner addresses) of a deputy list are
+// pairwise different. Miner addresses are unique by construction (the ranking is keyed by the candidate's
+// account address); node ids are free text of the register transaction. The probe registers a candidate X
+// with the NODE ID OF GENESIS DEPUTY D0 and a deposit that outranks D0, runs into term 1 and observes.
+// ---------------------------------------------------------------------------------------------
+
+func c02DuplicateNodeIDProbe(c *Ctx) {
+	oldT, oldI := params.TermDuration, params.InterimDuration
+	params.TermDuration, params.InterimDuration = 12, 4
+	defer func() { params.TermDuration, params.InterimDuration = oldT, oldI }()
+	s := c02NewStateN(c, 3, 5)
+	defer func() { Safe(func() string { s.n.Close(); return "" }) }()
+	n, w := s.n, s.w
+	observer := detKey("c02-observer")
+	xk := detKey("c02-squatter")
+	d0 := w.DeputyKeys[0]
+	parent := n.BC.CurrentBlock()
+	t := parent.Time() + 1
+	step := func(txs types.Transactions, key *ecdsa.PrivateKey) (string, *types.Block) {
+		blk, _, err := n.Build(parent, t, txs, key)
+		if err != nil {
+			return "build:" + err.Error(), nil
+		}
+		for _, k := range w.DeputyKeys {
+			blk.Confirms = append(blk.Confirms, Confirm(blk, k))
+		}
+		deputynode.SetSelfNodeKey(observer)
+		v, _ := c02InsertVerdict(n, blk)
+		return v, blk
+	}
+	for h := uint32(1); h <= params.TermDuration+params.InterimDuration; h++ {
+		var txs types.Transactions
+		switch h {
+		case 2:
+			txs = append(txs, txTransfer(w.FounderKey, keyAddr(xk), lemo(9000000), TxOpt{Exp: uint64(t) + 60, Msg: "fund-squatter"}))
+		case 3:
+			txs = append(txs, txRegister(xk, lemo(8000000), d0, false, nil, TxOpt{Exp: uint64(t) + 60, Msg: "register-d0-node-id"}))
+		}
+		v, blk := step(txs, nil)
+		if v != "ok" {
+			c.Count("dup-node-id:setup-failed:" + v)
+			return
+		}
+		parent = blk
+		t += 10
+	}
+	h := parent.Height() + 1 // first height of term 1
+	deps := n.DM.GetDeputiesByHeight(h, true)
+	firstByID := map[string]int{}
+	dupRank, firstRank := -1, -1
+	for i, d := range deps {
+		if j, ok := firstByID[string(d.NodeID)]; ok {
+			dupRank, firstRank = i, j
+		} else {
+			firstByID[string(d.NodeID)] = i
+		}
+	}
+	if dupRank < 0 {
+		c.Count("dup-node-id:not-reproduced")
+		return
+	}
+	c.Count("dup-node-id:two-deputies-share-a-node-id")
+	deputynode.SetSelfNodeKey(d0)
+	mine, _ := n.DM.GetMyMinerAddress(h)
+	deputynode.SetSelfNodeKey(observer)
+	// D0 signs a block that names ITS OWN address, in the slot of its own rank
+	var own string
+	slot := uint32(w.Timeout / 1000)
+	for d := uint32(1); d <= uint32(len(deps)); d++ {
+		tt := parent.Time() + slot*(d-1) + 1
+		addr, err := consensus.GetCorrectMiner(parent.Header, int64(tt)*1000, int64(w.Timeout), n.DM)
+		if err != nil || addr != keyAddr(d0) {
+			continue
+		}
+		blk, _, err := n.Build(parent, tt, nil, d0) // PrepareHeader names whatever GetMyMinerAddress says
+		if err != nil {
+			own = "build:" + err.Error()
+			break
+		}
+		named := blk.MinerAddress()
+		v1, _ := c02InsertVerdict(n, blk)
+		m := CloneBlock(blk)
+		m.Header.MinerAddress = keyAddr(d0)
+		Resign(m, d0)
+		v2, _ := c02InsertVerdict(n, m)
+		own = fmt.Sprintf("D0's node builds a block naming %s as miner (its own address is %s): %s; the same block naming D0's own address: %s", named.String(), keyAddr(d0).String(), v1, v2)
+	}
+	// ... and in the SQUATTER's slot, where D0's unsuspecting node mines for the squatter
+	squat := "not tried"
+	for d := uint32(1); d <= uint32(len(deps)); d++ {
+		tt := parent.Time() + slot*(d-1) + 1
+		addr, err := consensus.GetCorrectMiner(parent.Header, int64(tt)*1000, int64(w.Timeout), n.DM)
+		if err != nil || addr != keyAddr(xk) {
+			continue
+		}
+		if blk, _, err := n.Build(parent, tt, nil, d0); err == nil {
+			v, _ := c02InsertVerdict(n, blk)
+			squat = fmt.Sprintf("block signed by D0's node key naming %s: %s", blk.MinerAddress().String(), v)
+		}
+	}
+	own += "; in the squatter's slot: " + squat
+	c.Fail("c02/deputy-identity/duplicate-node-id",
+		fmt.Sprintf("term 1 has two deputies with the same node id: rank %d miner %s (squatter, registered D0's node id with a larger deposit) and rank %d miner %s (D0). GetDeputyByNodeID returns the first: D0's node now believes its miner address is %s, so every block it mines pays the squatter; in its own slot: %s",
+			firstRank, deps[firstRank].MinerAddress.String(), dupRank, deps[dupRank].MinerAddress.String(), mine.String(), own),
+		map[string]interface{}{"witness": "h2: founder -> X 9,000,000 LEMO; h3: X registers as candidate with nodeID = node id of genesis deputy D0, deposit 8,000,000; term 1 (height 17) lists X and D0 with the same node id"})
 }
